@@ -119,6 +119,29 @@ Definition op_gap : opfun := fun zs qs =>
       Ok [C11_gap_bound Q n' mu x gx y z; C11_descent_defect Q n' mu gx y; C11_nrm2 Q n' y; @dot Q n' gx y]
   | _, _ => Err (-1) end.
 
+(* the metric certificate of the code as written.  zs = [n]; qs = mu :: g (n) ++ y (n) ++ M (n*n, row-major)
+   -> [<M g, y> + mu <y, M y>;  <y, M y>;  <g,y> + mu |y|^2] *)
+Definition op_metric : opfun := fun zs qs =>
+  match zs, qs with
+  | [n], mu :: rest =>
+      let n' := Z.to_nat n in
+      let '(lg, r1) := c11_take n' rest in let '(ly, r2) := c11_take n' r1 in
+      let gx := c11_vec lg in let y := c11_vec ly in
+      let M : @mat Q := freeze 0%Qc n' n' (c11_rmat n' n' (firstn (n' * n') r2)) in
+      Ok [C11_descent_defect_metric Q n' M mu gx y; C11_ipM Q n' M y y; C11_descent_defect Q n' mu gx y]
+  | _, _ => Err (-1) end.
+
+(* the embedding of the on_para_eq_constraint=True POVM variable and its metric.  zs = [D; m]
+   -> L (m*D x (m-1)*D, row-major) ++ L^T L ((m-1)*D x (m-1)*D, row-major) *)
+Definition op_povm_embed : opfun := fun zs _ =>
+  match zs with
+  | [D; m] =>
+      let D' := Z.to_nat D in let m' := Z.to_nat m in
+      let N := (m' * D')%nat in let n := ((m' - 1) * D')%nat in
+      let L : @mat Q := freeze 0%Qc N n (C11_povm_L Q D' m') in
+      Ok (flat_of_mat N n L ++ flat_of_mat n n (C11_metric_of Q N L))
+  | _ => Err (-1) end.
+
 (* ---- CVXPY interface maps ---- *)
 (* basis: d*d matrices of d x d complex entries, flattened row-major, interleaved (re, im) *)
 Definition c11_cmat (k : nat) (l : list Qc) : cmat Q := mat_of_flat (0%Qc, 0%Qc) k k (cplx_of_flat l).
@@ -163,7 +186,8 @@ Definition op_cvx_gate : opfun := fun zs qs =>
                               else if (which =? 1)%Z then C11_choi_from_var Q d' dd B var
                               else C11_choi_sp Q d' B var)
   | _, _ => Err (-1) end.
-(* zs = [d; m; x; which]; qs = basis ++ var (m*d^4 - d^2) *)
+(* zs = [d; m; x; which]; qs = basis ++ var (m*d^4 - d^2);  which: 0 reference, 1 mprocess_element_choi_from_var,
+   2 ..._with_sparsity, 3 the dense function as coded BEFORE fix mprocess-element-choi-from-var-last-outcome *)
 Definition op_cvx_mp : opfun := fun zs qs =>
   match zs with
   | [d; m; x; which] =>
@@ -173,12 +197,13 @@ Definition op_cvx_mp : opfun := fun zs qs =>
       let B := c11_basis d' lb in let var := c11_vec lv in
       c11_out_cmat (d' * d') (if (which =? 0)%Z then choi_of_hs d' B (C11_mp_hs Q (d' * d') m' var x')
                               else if (which =? 1)%Z then C11_mp_choi_from_var Q d' m' B var x'
-                              else C11_mp_choi_sp Q d' m' B var x')
+                              else if (which =? 2)%Z then C11_mp_choi_sp Q d' m' B var x'
+                              else C11_mp_choi_from_var_before_fix Q d' m' B var x')
   | _ => Err (-1) end.
 
 Definition C11_ops : optable :=
   [ ("c11.sq_value"%string, op_sq_value); ("c11.sq_grad"%string, op_sq_grad);
     ("c11.sq_iter"%string, op_sq_iter); ("c11.tab_iter"%string, op_tab_iter);
-    ("c11.stop"%string, op_stop); ("c11.errval"%string, op_errval); ("c11.gap"%string, op_gap);
+    ("c11.stop"%string, op_stop); ("c11.errval"%string, op_errval); ("c11.gap"%string, op_gap); ("c11.metric"%string, op_metric); ("c11.povm_embed"%string, op_povm_embed);
     ("c11.cvx_state"%string, op_cvx_state); ("c11.cvx_povm"%string, op_cvx_povm);
     ("c11.cvx_gate"%string, op_cvx_gate); ("c11.cvx_mp"%string, op_cvx_mp) ].
